@@ -121,7 +121,7 @@ example : ianaDue (fun c => c = "en".toList) "fr".toList = true := by decide
 /-! ## the tables the triggers are read from (pinned: the documented sets) -/
 
 /-- the deprecated metadata types of the documentation -/
-theorem deprecated_pinned : deprecatedTypes = ["simserial".toList, "subscriberid".toList] := by decide
+theorem deprecated_pinned : deprecatedTypes = documentedDeprecated := by decide
 /-- the translatable columns of the two sheets -/
 theorem translatable_pinned :
     surveyTrTable.map (·.1) = ["label", "hint", "guidance_hint", "image", "big-image", "audio", "video",
